@@ -864,6 +864,12 @@ def rule_replay_dedup(db: ProgramDB) -> List[Instance]:
                                 live_suppresses = True
                 replay = replay_suppresses_true(hn, call)
                 ok = (not live_suppresses) or replay
+                if ok and replay and not live_suppresses:
+                    out.append(inst("REPLAY-DEDUP", VIOLATION, m, f"{m.short}[{unparse(call)[:46]}]",
+                                    "the replay suppresses duplicates of TRUE rows and the evaluating path it stands for does not: on a cache hit (every re-evaluation) rows that the "
+                                    "first evaluation returned are dropped - the same object listed twice in one flattened collection gives two rows the first time and one "
+                                    "afterwards", line=call.lineno))
+                    continue
                 out.append(inst("REPLAY-DEDUP", HOLDS if ok else VIOLATION, m, f"{m.short}[{unparse(call)[:46]}]",
                                 (f"evaluating path suppresses duplicate true rows: {live_suppresses}; the replay does: {replay}") if ok else
                                 "for each row of the other operand this operator either evaluates the operand (and suppresses "
